@@ -97,6 +97,8 @@ class Judge:
                  or s.pname in ("IndicatorBox", "PositiveConstraint"),
                  zero_weights=bool(np.any(np.asarray(s.pargs.get("weights", [1.0])) == 0)),
                  degenerate=s.data.get("degen"), engine=s.plan.get("engine"),
+                 interleaved_groups=("grp_indices" in s.pargs and
+                                     list(s.pargs["grp_indices"]) != list(range(len(s.pargs["grp_indices"])))),
                  max_abs_c=(res.get("seam") or {}).get("max_abs_c", 0.0),
                  hist_max_abs_c=(res.get("seam") or {}).get("hist_max_abs_c", 0.0),
                  aa_faults=bool(((res.get("faults") or {}).get("aa"))),
